@@ -6,14 +6,15 @@ Three paths of `MonthdayRange::Date`:
  * a single fixed day WITH a year, and a range whose start carries a year (`single_interval_from_bounds`):
    filter and hint read the same interval(s), sound for ANY offsets (OH/Proofs/HintDated.lean);
  * a single fixed day without a year, and the windowed general path (two yearless bounds): sound for day
-   offsets within ±100 000 days, whatever the size of the shift relative to a year
+   offsets within ±30 000 000 days (±300 000 days when a bound is Easter), whatever the size of the shift
+   relative to a year
    (OH/Proofs/HintDatedWindow.lean) — the search windows are centred on the year of `d - day offset`;
  * a single fixed day without a year whose occurrences are all empty (shifted end before shifted start):
    sound for ANY offsets (below).
 -/
 namespace OH.Model
 open OH.Model.Cal
-open OH.Proofs.EvalSpec (offSmallD)
+open OH.Proofs.EvalSpec (offSmallD offsSmallD)
 
 /-! ### a yearless single day whose occurrences are all empty: any offsets -/
 
@@ -116,14 +117,14 @@ theorem MonthdayRange.date_hintOK_singleDayEmpty (m dd : Nat) (so eo : DateOffse
 
 /-- decidable sufficient condition for the soundness of the dated hint: nothing for a single day with
 a year and for a start that carries a year (one interval); for a yearless single day: day offsets within
-±100 000 days, or every occurrence empty (the shifted end always before the shifted start, any offsets);
-for the windowed general path: day offsets within ±100 000 days and an end without a year (the range has a
-defined meaning) -/
+±30 000 000 days, or every occurrence empty (the shifted end always before the shifted start, any offsets);
+for the windowed general path: day offsets within ±30 000 000 days — ±300 000 days when a bound is Easter
+(`offsSmallD`) — and an end without a year (the range has a defined meaning) -/
 def datedHintSafe (s : DateSpec) (so : DateOffset) (e : DateSpec) (eo : DateOffset) : Bool :=
   match singleDayOf s e with
   | some (some _, _, _) => true
   | some (none, _, _) => (offSmallD so && offSmallD eo) || decide (hiOff eo < loOff so)
-  | none => (dateYear s).isSome || ((dateYear e).isNone && (offSmallD so && offSmallD eo))
+  | none => (dateYear s).isSome || ((dateYear e).isNone && offsSmallD s so e eo)
 
 /-- **Dated ranges**: under `datedHintSafe` the hint is sound on the whole evaluation window. -/
 theorem MonthdayRange.date_hintOK (s : DateSpec) (so : DateOffset) (e : DateSpec) (eo : DateOffset)
@@ -141,14 +142,15 @@ theorem MonthdayRange.date_hintOK (s : DateSpec) (so : DateOffset) (e : DateSpec
     | none =>
       have hy := (singleIntervalV_none_iff s so e eo hw).1 hsi
       simp only [datedHintSafe, hsd, hy, Option.isSome_none, Bool.false_or, Bool.and_eq_true,
-        Option.isNone_iff_eq_none, offSmallD, decide_eq_true_eq] at hsafe
-      obtain ⟨hey, hss, hes⟩ := hsafe
+        Option.isNone_iff_eq_none] at hsafe
+      obtain ⟨hey, hoff⟩ := hsafe
+      obtain ⟨hss, hes, L, hL1, hLs, hLe, hL⟩ := OH.Proofs.EvalSpec.offsSmallD_spec s so e eo hoff
       have hns : ¬ (s = e ∧ OH.Spec.isFixedDate s = true) := by
         rintro ⟨rfl, hfx⟩
         cases s with
         | easter yr => simp [OH.Spec.isFixedDate] at hfx
         | fixed yr m dd => simp [singleDayOf] at hsd
-      exact OH.Proofs.EvalSpec.dated_yearless_hintOK s so e eo ⟨ws, wso, hss⟩ ⟨we, weo, hes⟩
+      exact OH.Proofs.EvalSpec.dated_yearless_hintOK s so e eo ⟨ws, wso, hss, hL1, hLs⟩ ⟨we, weo, hes, hL1, hLe⟩ hL
         (by rw [← OH.Proofs.EvalSpec.dateYear_eq]; exact hy)
         (by rw [← OH.Proofs.EvalSpec.dateYear_eq]; exact hey) hns d hd1 hd2
   | some md =>
